@@ -20,6 +20,7 @@ RULE = ("continuous Line/CubicBezier paths of 1-6 segments built from headings: 
 ASSUMPTIONS = ["180-degree reversals (corner angle > 179.95 deg) are excluded as the property says", "tangents at joints are computed from "
                "reference derivatives with the one-sided-limit rule of C15",
                "distance to the input path is measured against a 4000-point flattening (slack = its chord sagitta bound + 1e-9*size)"]
+RULE += ' Also: Loop cubics, point-symmetric S-curves, segments up to 1000 x maxjointsize, and a small no-scipy configuration.'   # added after the seeded-change rounds (DESIGN.md section 10)
 CONFIGS = ['scipy', 'noscipy']
 BUDGET = {'quick': {'scipy': 6000, 'noscipy': 64}, 'thorough': {'scipy': 100000, 'noscipy': 1500}}
 REQUIRED = ['closing_joint_already_smooth', 'joint:LL', 'joint:LC', 'joint:CL', 'joint:CC', 'closed', 'open', 'already_smooth_joint', 'single_segment', 'smoothed',
